@@ -821,6 +821,17 @@ def decorations(name, base):
             elif mode == 2:
                 flips = draw(st.lists(st.booleans(), min_size=len(chars), max_size=len(chars)))
                 chars = [c.upper() if f else c for c, f in zip(chars, flips)]
+        if not pr['lower'] and not pr.get('upper') and any(c.isalpha() for c in chars) and draw(st.integers(0, 7)) == 0:
+            # what the probe learnt from the tree under test may be wrong exactly where a defect sits (lower case accepted
+            # except for one character): now and then change case anyway; the caller's domain rule decides whether it counts
+            mode = draw(st.integers(0, 2))
+            if mode == 0:
+                chars = [c.lower() for c in chars]
+            elif mode == 1:
+                chars = chars[:-1] + [chars[-1].lower()]
+            else:
+                i = draw(st.integers(0, len(chars) - 1))
+                chars[i] = chars[i].swapcase()
         # separators that are part of the number itself (mac, casrn, ...) written in another style, each one independently
         seppos = [i for i, c in enumerate(chars) if c in '-:./ ']
         if seppos and draw(st.integers(0, 2)) == 0:
